@@ -528,6 +528,17 @@ func (c *ctx) oneDg4() []string {
 	}
 }
 
+type prevDg6 struct {
+	mt    dhcpv6.MessageType
+	xid   dhcpv6.TransactionID
+	src   net.IP
+	port  int
+	bound int
+}
+
+var prev6 prevDg6
+var havePrev6 bool
+
 func genDispatch6(c *ctx) {
 	for c.count < c.n {
 		m, _ := dhcpv6.NewMessage()
@@ -542,7 +553,14 @@ func genDispatch6(c *ctx) {
 			m.MessageType = []dhcpv6.MessageType{dhcpv6.MessageTypeRequest, dhcpv6.MessageTypeConfirm, dhcpv6.MessageTypeRenew,
 				dhcpv6.MessageTypeRebind, dhcpv6.MessageTypeRelease, dhcpv6.MessageTypeInformationRequest, dhcpv6.MessageTypeDecline}[c.rng.Intn(7)]
 		}
-		if c.rng.Intn(6) != 0 {
+		// two clients behind one relay that drew the same transaction id: same type, same id, same source, another client
+		// identifier - the answer must be the second client's own (round 9: a retransmission cache keyed without the client id)
+		again := havePrev6 && c.rng.Intn(8) == 0
+		if again {
+			m.MessageType = prev6.mt
+			m.TransactionID = prev6.xid
+		}
+		if c.rng.Intn(6) != 0 || again {
 			cid := make([]byte, 4+c.rng.Intn(10))
 			c.rng.Read(cid)
 			cid[0], cid[1] = 0xfe, 0xfe
@@ -592,6 +610,11 @@ func genDispatch6(c *ctx) {
 		}
 		bound := []int{0, 0, 3, 7}[c.rng.Intn(4)]
 		oob := []int{-1, 0, 2, 5, 5}[c.rng.Intn(5)]
-		execDg6(c, []string{"dg6", fmt.Sprint(bound), fmt.Sprint(oob), c.chain(true), hx(src), fmt.Sprint(546 + c.rng.Intn(3)), hx(dg)})
+		port := 546 + c.rng.Intn(3)
+		if again {
+			src, port, bound = prev6.src, prev6.port, prev6.bound
+		}
+		prev6, havePrev6 = prevDg6{m.MessageType, m.TransactionID, src, port, bound}, true
+		execDg6(c, []string{"dg6", fmt.Sprint(bound), fmt.Sprint(oob), c.chain(true), hx(src), fmt.Sprint(port), hx(dg)})
 	}
 }
